@@ -15,6 +15,7 @@ import (
 	"os"
 	"runtime/debug"
 	"testing"
+	"time"
 
 	"verif/vk"
 )
@@ -24,7 +25,7 @@ func TestCheck(t *testing.T) {
 	if os.Getenv("VERIF_VERBOSE") == "" {
 		log.SetOutput(io.Discard)
 	}
-	debug.SetGCPercent(400) // many tiny allocations per ReadAt; memory stays small
+	debug.SetMemoryLimit(1 << 30) // soft limit: collect harder long before a shard gets big
 	res := vk.New("C15")
 	res.Rule = "input-shape enumeration, no sampling: (writer) every length x data kind x source fragmentation of the stated grid, engineered contents found by a fixed-order search and verified with the real rollsum; distinct = distinct (length, kind, resulting chunk layout); (reader) every tree of the stated grammar x every (offset,length) ReadAt, sequential Read, Seek and ForeachChunk; distinct = distinct tree; (staticset) every member count 0..m^3+2 per threshold m; distinct = distinct static-set shape"
 	res.Assumptions = []string{
@@ -47,17 +48,24 @@ func TestCheck(t *testing.T) {
 		res.Write()
 		return
 	}
+	// The reader spaces (small inputs, many of them) go first and may use at
+	// most half of the budget; the writer (MiB-sized inputs) gets the rest.
+	dl := vk.Deadline()
+	half := time.Now().Add(time.Until(dl) / 2)
 	only := os.Getenv("C15_ONLY")
 	if only == "" || only == "staticset" {
-		runStaticScenario(res)
+		runStaticScenario(res, half)
 	}
-	if only == "" || only == "writer" {
-		runWriterScenario(res)
-	}
+	debug.SetGCPercent(400) // many tiny allocations per ReadAt; the live heap is a few MB
 	for _, sp := range readerSpaces() {
 		if only == "" || only == "reader" || only == sp.name {
-			runReaderScenario(res, sp)
+			runReaderScenario(res, sp, half)
 		}
+	}
+	debug.SetGCPercent(100)
+	debug.FreeOSMemory()
+	if only == "" || only == "writer" {
+		runWriterScenario(res, dl)
 	}
 	res.Write()
 }
